@@ -58,7 +58,7 @@ pub fn check_client(sc: &CScenario) -> CaseResult {
         let r = &run.recs;
         serde_json::to_value(&r[r.len().saturating_sub(60)..]).unwrap_or_default()
     };
-    match check_contract(&run.recs, 0, 0, sc.cfg.independent) {
+    match check_contract(&run.recs, 0, 0, sc.cfg.independent, false) {
         Err(m) => Err(Violation::new(format!("client dispatch: {m}")).with_detail(json!({"history_tail": tail()}))),
         Ok(st) => {
             if let Some((t, m)) = run.panics.first() {
